@@ -540,4 +540,20 @@ func shimInputVictims(res *hx.Result, proxyAddr string, wg *sync.WaitGroup, n in
 	post("poll", fmt.Sprintf(`{"id":%q}`, r.ID))
 	post("close", fmt.Sprintf(`{"id":%q}`, r.ID))
 	post("close", fmt.Sprintf(`{"id":%q}`, r.ID))
+	// history: after all the calls that were refused (the second close among them), a healthy exchange on a new
+	// session is served as if nothing had happened - what a refused call leaves behind must not reach later ones
+	st1, body1 := post("open", "ws://"+proxyAddr+"/ws-echo")
+	var r2 struct {
+		ID string `json:"id"`
+	}
+	json.Unmarshal(body1, &r2)
+	if st1 == 0 {
+		res.Note("shim-input: no answer to the second shim open call (the agent is not serving)")
+		return
+	}
+	st2, _ := post("data", fmt.Sprintf(`[{"id":%q,"msg":"ping-after-faults"}]`, r2.ID))
+	st3, body3 := post("poll", fmt.Sprintf(`{"id":%q}`, r2.ID))
+	st4, _ := post("close", fmt.Sprintf(`{"id":%q}`, r2.ID))
+	ok := st1 == 200 && r2.ID != "" && st2 == 200 && st3 == 200 && strings.Contains(string(body3), "ping-after-faults") && st4 == 200
+	hx.Emit("ShimHealthy", "ok", ok, "open", st1, "data", st2, "poll", st3, "close", st4)
 }
